@@ -293,6 +293,10 @@ func (r *c11Run) judge(what string) {
 		seen[id] = h
 	}
 	st := r.p.Stat()
+	if int(st.AcquiredResources()) < len(seen) {
+		// somebody else's (repeated) Release handed a connection that is in use back to the pool
+		r.fail("connection-in-use-not-acquired: %d handles hold connections but the pool counts %d acquired after %s (a held connection was returned to the pool behind its holder's back)", len(seen), st.AcquiredResources(), what)
+	}
 	if int(st.TotalResources()) > r.s.max {
 		r.fail("more-resources-than-max: Stat total=%d MaxConns=%d after %s", st.TotalResources(), r.s.max, what)
 	}
